@@ -5,10 +5,12 @@ from harness.common.rng import Rng
 from harness.props import sslink_util as U
 
 PROP = "C39"
-LEAN_MODULES = ["LunaVerif.Props.C39"]
+LEAN_MODULES = ["LunaVerif.Props.C39", "LunaVerif.Lemmas.C39Round", "LunaVerif.Lemmas.C39RoundRun",
+                "LunaVerif.Props.C39Retry"]
 DRIVER = "Driver/C39.lean"
 REQUIRED_THEOREMS = ["send_only_with_credit", "sequence_numbers_consecutive_from_advertised",
-                     "retire_only_on_matching_lgood", "lbad_retransmits_all_unacked_in_order_with_dl_partial"]
+                     "retire_only_on_matching_lgood", "lbad_retry_one_step_facts",
+                     "lbad_retransmits_all_unacked_in_order_with_dl", "lbad_retransmission_kth", "lbad_round"]
 RULE = ("cases = closed-loop link partner (sequence advertisement, LCRD A-D, LGOOD per received header after a random "
         "delay, LBAD for a randomly 'corrupted' header followed by ignoring until our LRTY) + protocol layer queue "
         "timing + source back-pressure + lrty_pending timing + link down/up; 'chaos' partner: wrong credit letters, "
@@ -18,14 +20,17 @@ ASSUMPTIONS = [
     "model = the REPAIRED transmitter (fix b52a16f, /repo main 1908059)",
     "the link stays up; the partner acknowledges only outstanding headers and never holds out more credits than "
     "4 + acknowledged headers (its four buffers); mismatching LCRD/LGOOD are allowed and proved to request recovery",
+    "retransmission theorem only (EnvStepR.ackSent): the partner acknowledges a header only after its (re)transmission has "
+    "been started - since the last LBAD, if there was one (an LGOOD for a header not yet put on the wire again after an "
+    "LBAD cannot come from a conforming partner: acknowledgements are in order and precede the LBAD)",
 ]
-PARTIAL = ("lbad_retransmits_all_unacked_in_order_with_dl is proved as one-step facts (reload of read pointer / counter / "
-           "retry_pending on every LBAD, no dequeue by a packet in flight, WAIT_FOR_RETRY offers buffers[read pointer] with "
-           "DL, waits for lrty_pending, advances by one per completion) plus the invariant that the buffers from the "
-           "acknowledge pointer hold the unacknowledged headers in order; their composition over unbounded waiting times "
-           "into a statement about the sequence of headers on the wire is not proved and is checked by the monitor "
-           "(retry-order, retry-dl) on every trace.  DATA payload streaming (data_sink active) is out of scope (C36); "
-           "link re-entry of the transmitter is outside the property (monitor stops at link-down)")
+PARTIAL = ("lbad_retransmits_all_unacked_in_order_with_dl is a safety statement about the headers handed to the raw "
+           "transmitter (packet_tx.header when it leaves IDLE) after the LBAD cycle: the first m of them are the m "
+           "unacknowledged headers, in order, with DL, whatever the waiting times; that the round is completed under a "
+           "fair source.ready / lrty_pending (liveness) is not proved, and the words of a latched header on the wire are "
+           "covered state by state (tx_word_carries_header), not as a parsed word sequence.  DATA payload streaming "
+           "(data_sink active) is out of scope (C36); link re-entry of the transmitter is outside the property (monitor "
+           "stops at link-down)")
 
 IN_NAMES = ["sink_valid", "sink_data", "sink_ctrl", "source_ready", "enable", "queue_valid", "q_dw0", "q_dw1", "q_dw2",
             "q_dw3", "lrty_pending"]
